@@ -20,21 +20,7 @@ pub fn gen(seed: u64, tier: Tier) -> ScenarioSpec {
     let sparse = rng.chance(1, if tier == Tier::Thorough { 6000 } else { 2500 });
     let cfg = if sparse { GenCfg { size: Some(gen::SizeClass::Tiny), force_end: true, ..Default::default() } } else { cfg };
     let mut rec = gen::gen_recorder(&mut rng, &cfg);
-    let mut sparse_knobs: Vec<(&str, i64)> = vec![];
-    if sparse {
-        let code = 0x60 + rng.below(0x40) as u8;
-        rec.extras = Extras::default();
-        rec.extras.phantom = vec![(code, 65535)];
-        rec.irregular = Irregular::default();
-        if let Some(g) = rec.gecko.as_mut() {
-            g.len = g.len.min(3000);
-        }
-        sparse_knobs.push(("sparse_code", code as i64));
-        // 32768 x 65536 = 2^31; 65535 x 65536 = 2^32 - 65536
-        sparse_knobs.push(("sparse_count", *rng.pick(&[32767i64, 32768, 32769, 33000, 40000, 65535, 65535])));
-        sparse_knobs.push(("sparse_sel", rng.below(1 << 30) as i64));
-        sparse_knobs.push(("sparse_chunk", *rng.pick(&[0i64, 0, 1 << 16, 8192 + 7, 1 << 20])));
-    }
+    let sparse_knobs: Vec<(&str, i64)> = if sparse { gen_sparse(&mut rng, &mut rec) } else { vec![] };
     let len = gen::approx_len(&rec);
     let mut spec = gen::base_spec(P, "S5", seed, rec);
     spec.stream = gen::gen_stream(&mut rng, len, true);
@@ -52,31 +38,13 @@ pub fn gen(seed: u64, tier: Tier) -> ScenarioSpec {
 
 /// The > 2 GiB leg: full and skip-frames reads of `head ++ hole ++ tail` against the plain twin.
 fn sparse_leg(spec: &ScenarioSpec, m: &recorder::Model, ctx: &mut Ctx) -> Result<(), Violation> {
-    let code = spec.knob("sparse_code") as u8;
-    if !spec.recorder.extras.phantom.contains(&(code, 65535)) || crate::layout::KNOWN_CODES.contains(&code) {
+    let Some(sp) = sparse_setup(spec, m) else {
         // (a spec the generator never produces; the minimiser may try it)
-        ctx.skip("sparse leg without its payload-table entry");
+        ctx.skip("sparse leg without its payload-table entry or without a place for the hole");
         return Ok(());
-    }
-    let mut count = spec.knob("sparse_count").max(1) as u64;
-    // the hole goes in front of one of the events after Game Start (or at the end of the raw element)
-    // — never after Game End: what follows Game End is buffered as a whole by design, and a 2 GiB buffer is
-    // beyond the allocation cap this harness runs under, not a defect)
-    let first_end = m.events.iter().position(|e| matches!(e.what, recorder::What::End { .. })).unwrap_or(m.events.len());
-    let spots: Vec<usize> = m.events.iter().take(first_end + 1).skip(2).map(|e| e.off).collect();
-    if spots.is_empty() {
-        ctx.skip("sparse leg: no place for the hole");
-        return Ok(());
-    }
-    let at = spots[spec.knob("sparse_sel") as usize % spots.len()];
-    let old_raw = (m.raw_end - crate::recorder::HEADER_LEN) as u64;
-    while old_raw + count * 65536 > u32::MAX as u64 {
-        count -= 1;
-    }
-    let mut head = m.bytes[..at].to_vec();
-    head[11..15].copy_from_slice(&((old_raw + count * 65536) as u32).to_be_bytes());
+    };
+    let SparseFile { head, at, count, code, chunk, old_raw } = sp;
     let tail = &m.bytes[at..];
-    let chunk = spec.knob("sparse_chunk").max(0) as usize;
     ctx.probe(if old_raw + count * 65536 >= (1u64 << 32) - 70_000 { "replay within 70 000 bytes of 2^32" } else if count >= 32768 { "replay longer than 2^31 bytes" } else { "replay just below 2^31 bytes" });
     ctx.fault("sparse_stream_bytes_gib", (count * 65536) >> 30);
     let plain = expect_ok(P, "slippi::read(plain twin)", read_slp_noopts(&m.bytes, &StreamSpec::default(), &[]).res)?;
